@@ -540,6 +540,10 @@ def oracle_objects(evs, term, case, findings=None):
         ops_ = bodies[fr[0]] if fr[0] < len(bodies) else []
         return ops_[fr[1]] if fr[1] < len(ops_) else None
 
+    # programs that handle Acquire futures by hand (q-operations) take and give back permits outside the counted
+    # operations, and their queued futures block later requests on a fair semaphore: the counting oracle does not apply
+    # (those programs are judged by the correspondence with the verified semaphore model)
+    manual_acquire = any(op.startswith("q") and op[:2] in ("qn", "qp", "qd") for b in bodies for op in b)
     aborted = set()       # futures on which abort() was called: their guards are released without a record when they are cancelled
     for idx, e in enumerate(evs):
         if e.kind != "O":
@@ -727,6 +731,8 @@ def oracle_objects(evs, term, case, findings=None):
                 out.append(("C03", "deadlock reported although tasks %s wait on closed semaphore s%d" % ([t for t, _ in lst], o), None))
             elif lst and all(k <= s_["avail"] for _, k in lst) and s_["avail"] > 0:
                 out.append(("C03", "deadlock reported although every acquire pending on s%d fits in the %d available permits" % (o, s_["avail"]), None))
+    if manual_acquire:
+        out = [x for x in out if not (x[0] == "C18" or "pending on s" in x[1] or "semaphore" in x[1])]
     return out
 
 
